@@ -17,12 +17,12 @@ pub struct COp {
     pub b: u8,
 }
 
-pub const OP_NAMES: [&str; 36] = [
+pub const OP_NAMES: [&str; 37] = [
     "file.serialize", "elem.serialize", "path", "xml_path", "model", "file_membership", "elements_dfs", "sub_elements", "identifiable_elements", "get_element_by_path", "get_references_to", "check_references",
     "check_version_compatibility", "cmp", "debug", "item_name+character_data", "get_reference_target", "create_sub_element", "create_named_sub_element", "remove_sub_element", "set_item_name", "move_element_here",
-    "create_copied_sub_element", "set_character_data", "set_reference_target", "set_attribute", "remove_attribute", "set_comment", "model.sort", "create_file", "remove_file", "add_to_file", "remove_from_file", "load_buffer", "duplicate", "elem.sort",
+    "create_copied_sub_element", "set_character_data", "set_reference_target", "set_attribute", "remove_attribute", "set_comment", "model.sort", "create_file", "remove_file", "add_to_file", "remove_from_file", "load_buffer", "duplicate", "elem.sort", "set_filename",
 ];
-pub const NCODES: u8 = 36;
+pub const NCODES: u8 = 37;
 pub fn is_writer(code: u8) -> bool {
     code >= 17
 }
@@ -167,6 +167,7 @@ impl Fix {
                 r(m.load_buffer(FIXTURE_DOC_B.as_bytes(), format!("load{tag}.arxml"), true).map(|(_, w)| format!("loaded/{}", w.len())))
             }
             34 => r(self.model.duplicate().map(|d| format!("{}", d.elements_dfs().count()))),
+            36 => r(self.files[[0, 2][o.a as usize % 2]].set_filename(format!("ren{tag}.arxml")).map(|_| "renamed".into())),
             _ => {
                 e.sort();
                 "ok".into()
@@ -259,7 +260,7 @@ impl ConcCase {
         Some(ConcCase { threads, schedule })
     }
     pub fn describe(&self) -> String {
-        self.threads.iter().enumerate().map(|(i, t)| format!("T{i}: {}", t.iter().map(|o| format!("{}(role {}, arg {})", OP_NAMES[o.code as usize % OP_NAMES.len()], o.a as usize % 23, o.b)).collect::<Vec<_>>().join("; "))).collect::<Vec<_>>().join(" || ")
+        self.threads.iter().enumerate().map(|(i, t)| format!("T{i}: {}", t.iter().map(|o| format!("{}(role {}, arg {})", OP_NAMES[o.code as usize % OP_NAMES.len()], o.a as usize % 27, o.b)).collect::<Vec<_>>().join("; "))).collect::<Vec<_>>().join(" || ")
     }
 }
 
